@@ -107,11 +107,13 @@ class Interp(object):
             st[off + j] = st.get(off + j, 0) + 1
             self.mem[(region, off + j)] = b
 
-    def run(self):
+    def run(self, bound_args=False):
         fn = self.fn
         sp = self.spec
-        self.args = []
-        for i, p in enumerate(fn.params):
+        self.retval = None
+        if not bound_args:
+            self.args = []
+        for i, p in enumerate(fn.params if not bound_args else []):
             ty = p['ty']
             if i == sp.get('size'):
                 self.args.append(('int', self.size, 32))
@@ -146,6 +148,8 @@ class Interp(object):
                     raise Unknown('step budget exceeded (loop does not terminate in the abstraction?)')
                 r = self.step(i)
                 if i.op == 'ret':
+                    if i.ops:
+                        self.retval = self.val(i.ops[0])
                     return
                 if i.op in ('br', 'switch'):
                     nxt = r
@@ -315,6 +319,19 @@ class Interp(object):
             self.env[i.id] = ('ptr', ('local', i.id), 0)
             return
         if op == 'call':
+            g = self.prog.callee_fn(i) if i.callee else None
+            if g is not None and g.internal and g.unit is self.fn.unit and getattr(self, 'depth', 0) < 2:
+                # a static helper of the kernel's unit (e.g. the tail loop extracted into a function): interpreted in place, on the
+                # same abstract memory
+                sub = Interp(self.prog, g, self.spec, self.size, self.count, self.rule)
+                sub.depth = getattr(self, 'depth', 0) + 1
+                sub.mem, sub.loads, sub.stores, sub.arr_reads = self.mem, self.loads, self.stores, self.arr_reads
+                sub.args = [self.val(a) for a in i.args]
+                sub.steps = self.steps
+                sub.run(bound_args=True)
+                self.steps = sub.steps
+                self.env[i.id] = sub.retval if sub.retval is not None else ('opaque',)
+                return
             raise Unknown('call of %s inside a kernel' % i.callee)
         raise Unknown('operation %s at %s' % (op, i.loc()))
 
